@@ -51,6 +51,8 @@ type Contract struct {
 	Props          []string
 	Safety         bool     // also generate safety obligations when verifying this function
 	Holds          []string // parameters whose mutex the caller holds (assumed at entry, checked at call sites in lock-check mode)
+	PoolResult bool // the result is a buffer taken from a pool: it stays usable until it is released
+	Releases   string // name of the []byte parameter that is handed back to the pool (must not be used afterwards)
 	BorrowedResult string   // name of the *bufio.Reader parameter whose buffer the first result may alias
 	NoInline       bool
 	Line           int
@@ -74,7 +76,7 @@ type ContractSet struct {
 	Files      []string
 }
 
-var clauseKw = regexp.MustCompile(`^(func|iface|callback|spawn|fieldassume|fieldinv|safetyinv|sensures|srequires|borrowed-result|chaninv|guarded|confined|immutable|atomicfield|unshared|holds|revent|event|step|uses|assumes|assume|requires|ensures|modifies|loop|invariant|decreases|unroll|trusted|props|safety|noinline|global-invariant|lemma|typeinv|end)\b`)
+var clauseKw = regexp.MustCompile(`^(func|iface|callback|spawn|fieldassume|fieldinv|safetyinv|sensures|srequires|borrowed-result|pool-result|releases|chaninv|guarded|confined|immutable|atomicfield|unshared|holds|revent|event|step|uses|assumes|assume|requires|ensures|modifies|loop|invariant|decreases|unroll|trusted|props|safety|noinline|global-invariant|lemma|typeinv|end)\b`)
 
 // LoadContracts reads //@ comment blocks from the given files.
 func LoadContracts(files ...string) (*ContractSet, error) {
@@ -313,6 +315,10 @@ func (cs *ContractSet) loadFile(path string) error {
 				cur.NoInline = true
 			case "borrowed-result":
 				cur.BorrowedResult = strings.TrimSpace(r.text)
+			case "pool-result":
+				cur.PoolResult = true
+			case "releases":
+				cur.Releases = strings.TrimSpace(r.text)
 			case "uses":
 				cur.Uses = append(cur.Uses, strings.Fields(strings.ReplaceAll(r.text, ",", " "))...)
 			case "assumes":
@@ -374,6 +380,6 @@ func (c *Contract) safetyOnly() bool {
 // holdsOnly: the contract says nothing but which mutexes the caller holds: the function is still inlined or
 // summarised as if it had no contract.
 func (c *Contract) holdsOnly() bool {
-	return c != nil && len(c.Holds) > 0 && !c.HasMod && !c.Trusted && !c.NoInline && len(c.Modifies) == 0 && len(c.Events) == 0 &&
+	return c != nil && (len(c.Holds) > 0 || c.PoolResult || c.Releases != "") && !c.HasMod && !c.Trusted && !c.NoInline && len(c.Modifies) == 0 && len(c.Events) == 0 &&
 		len(c.REvents) == 0 && len(c.Loops) == 0 && len(c.Assumed) == 0 && len(c.Requires) == 0 && len(c.Ensures) == 0
 }
